@@ -1024,6 +1024,67 @@ class C08(core.Check):
         PROBES[0] = Probes()
         os.makedirs(WORKDIR, exist_ok=True)
 
+    def extra(self):
+        """two requests for different sections overlap in time: what a handler reads from request.toolmaps / request.config
+        AFTER another request went through its config stage must still be its own merged settings (every pairing of
+        two sections with different arguments of one tool, both orders)"""
+        import threading
+        import cherrypy
+        out = []
+
+        def noop(**kw):
+            pass
+        cherrypy.tools.c08conc = cherrypy.Tool('before_handler', noop)
+        try:
+            confs = {'/a': {'tools.c08conc.on': True, 'tools.c08conc.tag': 'A', 'pk.conc': 'A'},
+                     '/b': {'tools.c08conc.on': True, 'tools.c08conc.tag': 'B', 'tools.c08conc.more': 1, 'pk.conc': 'B'},
+                     '/c': {'pk.conc': 'C'}}
+            for first, second in (('a', 'b'), ('b', 'a'), ('a', 'c'), ('c', 'b')):
+                gate_in, gate_go = threading.Event(), threading.Event()
+                seen = {}
+
+                def view():
+                    tm = cherrypy.request.toolmaps.get('tools', {}).get('c08conc')
+                    return {'toolmap': None if tm is None else {k: repr(v) for k, v in sorted(tm.items())},
+                            'config': repr(cherrypy.request.config.get('pk.conc'))}
+
+                def mk(name):
+                    def h(self):
+                        if name == first:
+                            gate_in.set()
+                            gate_go.wait(10)
+                        seen[name] = view()
+                        return name.encode()
+                    h.exposed = True
+                    return h
+                Root = type('C08Conc', (object,), {n: mk(n) for n in 'abc'})
+                app = wsgi.make_app(Root(), confs)
+                t = threading.Thread(target=lambda: wsgi.call(app, 'GET', '/' + first), daemon=True)
+                t.start()
+                gate_in.wait(10)
+                t2 = threading.Thread(target=lambda: wsgi.call(app, 'GET', '/' + second), daemon=True)
+                t2.start()
+                t2.join(10)
+                gate_go.set()
+                t.join(10)
+                _c02.C02.drop_app(app)
+                self.count('overlapping requests (toolmaps/config seen late)')
+                for name in (first, second):
+                    c = confs['/' + name]
+                    exp_tm = {k.split('.', 2)[2]: repr(v) for k, v in sorted(c.items()) if k.startswith('tools.c08conc.')} or None
+                    exp = {'toolmap': exp_tm, 'config': repr(c.get('pk.conc'))}
+                    if seen.get(name) != exp:
+                        out.append(core.Violation(
+                            'overlap:settings-of-another-request',
+                            'requests /%s and /%s overlapped; the handler of /%s read %r from request.toolmaps / '
+                            'request.config, its own sections give %r' % (first, second, name, seen.get(name), exp),
+                            case={'k': 'overlap', 'first': first, 'second': second}, observed=seen))
+                        break
+        finally:
+            if hasattr(cherrypy.tools, 'c08conc'):
+                delattr(cherrypy.tools, 'c08conc')
+        return out[:1]
+
     def teardown(self):
         import cherrypy
         _c02.C02.drop_app(getattr(self, '_last_app', None))
